@@ -273,6 +273,23 @@ pub fn map_foreach(
         }
     }
 
+    // The callback may delete or clear entries that are still waiting in this
+    // snapshot: keep the snapshot (and the map and callback) rooted
+    let snapshot_guard = interp.heap.create_guard();
+    snapshot_guard.guard(map_obj.cheap_clone());
+    for root in [&callback, &this_arg] {
+        if let JsValue::Object(obj) = root {
+            snapshot_guard.guard(obj.cheap_clone());
+        }
+    }
+    for (key, value) in &entries {
+        for item in [key, value] {
+            if let JsValue::Object(obj) = item {
+                snapshot_guard.guard(obj.cheap_clone());
+            }
+        }
+    }
+
     for (key, value) in entries {
         interp.call_function(
             callback.clone(),
